@@ -253,7 +253,12 @@ static __attribute__((noinline)) void do_sleep(int kind, long long a, long long 
   if (kind == K_FSLEEP) fiber_sleep((uint32_t)a, (uint32_t)b);
   else if (kind == K_SLEEP) sleep((unsigned int)a);
   else if (kind == K_USLEEP) usleep((useconds_t)a);
-  else { struct timespec ts; ts.tv_sec = (time_t)a; ts.tv_nsec = (long)b; nanosleep(&ts, NULL); }
+  else {
+    /* request and remainder may be the same object (the POSIX retry idiom nanosleep(&ts, &ts)): odd nanosecond counts
+     * use it, even ones pass a separate remainder, multiples of 4 pass NULL */
+    struct timespec ts, rem; ts.tv_sec = (time_t)a; ts.tv_nsec = (long)b;
+    nanosleep(&ts, (b & 1) ? &ts : (b & 2) ? &rem : NULL);
+  }
 }
 static void one_sleep(int me, int kind, long long a, long long b, int do_clobber) {
   const int j = nrec[me];
